@@ -1,4 +1,4 @@
-CONSTANTS N = 4 MaxOps = 4 OpKinds = {"blank", "comment", "split", "join", "eol", "case", "trail", "fixed"}
+CONSTANTS N = 4 MaxOps = 4 OpKinds = {"blank", "comment", "split", "join", "eol", "case", "trail", "fixed", "tcomment", "flush"}
 SPECIFICATION Spec
 VIEW View
 INVARIANT Monotone
